@@ -305,7 +305,7 @@ func (x *Exec) store(st *State, p Ptr, val Value) {
 func (x *Exec) nameValue(hint string, v Value) Value {
 	switch a := v.(type) {
 	case Ptr:
-		if len(a.Path) == 0 {
+		if len(a.Path) == 0 && a.May == nil {
 			return v
 		}
 		path := make([]Sel, len(a.Path))
@@ -315,7 +315,12 @@ func (x *Exec) nameValue(hint string, v Value) Value {
 				path[i].Idx = x.vc.def(hint, s.Idx)
 			}
 		}
-		return Ptr{Obj: a.Obj, Path: path, Nil: a.Nil}
+		np := Ptr{Obj: a.Obj, Path: path, Nil: a.Nil}
+		if a.May != nil {
+			c := x.vc.def(hint, *a.May)
+			np.May = &c
+		}
+		return np
 	case Slc:
 		a.Off = x.vc.def(hint, a.Off)
 		a.Len = x.vc.def(hint, a.Len)
